@@ -156,6 +156,7 @@ type coRunner struct {
 	sess        map[string]int64    // session timeout the member asked for (effective)
 	refresh     map[string]int64    // time of the last accepted refresh (join, or heartbeat of a current member)
 	changedSub  map[string]bool     // re-joined a Stable group with a different subscription and the generation did not move
+	hbRebal     map[string]bool     // the last refresh was a heartbeat answered while the group was rebalancing
 	epoch       int
 	failoverIn  bool // a failover happened in this group incarnation
 	maxGen      int32
@@ -425,7 +426,7 @@ func (r *coRunner) record(s coStep) {
 		// the group is gone: a later group of the same name is a new incarnation
 		r.epoch++
 		r.maxGen, r.failoverIn = 0, false
-		r.sub, r.lastGen, r.sess, r.refresh, r.changedSub = map[string][]string{}, map[string]int32{}, map[string]int64{}, map[string]int64{}, map[string]bool{}
+		r.sub, r.lastGen, r.sess, r.refresh, r.changedSub, r.hbRebal = map[string][]string{}, map[string]int32{}, map[string]int64{}, map[string]int64{}, map[string]bool{}, map[string]bool{}
 	}
 }
 
@@ -438,6 +439,7 @@ func (r *coRunner) dropGone(v *coGroupSnap) {
 			delete(r.sess, id)
 			delete(r.refresh, id)
 			delete(r.changedSub, id)
+			delete(r.hbRebal, id)
 		}
 	}
 }
@@ -517,6 +519,7 @@ func (r *coRunner) doJoin(ctx context.Context, op coOp) {
 		r.sess[me] = 30000
 	}
 	r.refresh[me] = now
+	r.hbRebal[me] = false
 	if post != nil {
 		r.dropGone(post)
 	}
@@ -742,6 +745,7 @@ func (r *coRunner) doHeartbeat(ctx context.Context, op coOp) {
 	} else {
 		// a heartbeat of a current member in the current generation keeps the session alive
 		r.refresh[id] = now
+		r.hbRebal[id] = pre.phase != groupStateStable
 		if pre.phase != groupStateStable {
 			r.tags["hb-during-rebalance"] = true
 		}
@@ -882,7 +886,11 @@ func (r *coRunner) doCleanup() {
 					r.tags["cleanup-at-threshold"] = true
 				}
 				if gone {
-					r.fail("C43", "live-member-removed", fmt.Sprintf("member %s refreshed at %d ms (session %d ms, rebalance deadline %v, joined generation %d of %d) was removed by cleanup at %d ms", m.id, last, sess, coDeadline(pre), m.joingen, pre.gen, now))
+					key := "live-member-removed"
+					if r.hbRebal[m.id] {
+						key = "heartbeat-during-rebalance-ignored" // its last heartbeat was answered REBALANCE_IN_PROGRESS and did not count
+					}
+					r.fail("C43", key, fmt.Sprintf("member %s refreshed at %d ms (session %d ms, rebalance deadline %v, joined generation %d of %d) was removed by cleanup at %d ms", m.id, last, sess, coDeadline(pre), m.joingen, pre.gen, now))
 				}
 			}
 		}
@@ -970,7 +978,7 @@ func coDetectKeep() bool {
 
 func coNewRunner(cs coCase) *coRunner {
 	r := &coRunner{cs: cs, tags: map[string]bool{}, meta: map[string][]int32{}, keep: coDetectKeep(),
-		sub: map[string][]string{}, lastGen: map[string]int32{}, sess: map[string]int64{}, refresh: map[string]int64{}, changedSub: map[string]bool{},
+		sub: map[string][]string{}, lastGen: map[string]int32{}, sess: map[string]int64{}, refresh: map[string]int64{}, changedSub: map[string]bool{}, hbRebal: map[string]bool{},
 		syncLog: map[string]map[string][]assignmentTopic{}}
 	var topics []protocol.MetadataTopic
 	for i, parts := range cs.Parts {
